@@ -1,7 +1,12 @@
 (* Props/C18.v — the property theorems of C18 and nothing else.
-   C18: the net/http middleware blocks completely and otherwise passes traffic through intact. *)
+   C18: the net/http middleware blocks completely and otherwise passes traffic through intact.
+   All statements are about Http.wrap_handler (the function CorrC18.ok evaluates), quantified over
+   every configuration and rule oracle (cfg), every request body, every list of handler
+   operations; sk = true is net/http's ResponseWriter, sk = false httptest.ResponseRecorder. *)
 From Verif Require Import Base Http HttpProofs.
 
+(* a request interrupted in phase 1 / 2 (or rejected by the body limit) never reaches the handler;
+   the writer only gets WriteHeader(status of the interruption, 403 for a deny without status) *)
 Theorem C18_request_block : forall cfg sk body ops it,
   c_engine cfg <> EOff ->
   mw_request cfg body = RBlocked it ->
@@ -12,3 +17,92 @@ Theorem C18_request_block : forall cfg sk body ops it,
   (is_info (status_of it 200) = false -> cl_status (client_of sk (r_ds r)) = status_of it 200).
 Proof. exact request_block_holds. Qed.
 Print Assumptions C18_request_block.
+
+(* exactly when: a phase-1 rule, the body limit with Reject (at or above the limit), or a phase-2
+   rule on the buffered prefix *)
+Theorem C18_request_block_iff : forall cfg body,
+  (exists it, mw_request cfg body = RBlocked it) <->
+  (rule_intr cfg (c_ph1 cfg) <> None \/
+   (c_req_access cfg = true /\ c_req_limit cfg <= blen body /\ eff_action cfg (c_req_action cfg) = Reject) \/
+   rule_intr cfg (c_ph2 cfg (if c_req_access cfg then takeN (c_req_limit cfg) body else [])) <> None).
+Proof. exact request_blocked_iff. Qed.
+Print Assumptions C18_request_block_iff.
+
+(* a response that ends interrupted (phase 3, phase 4, response limit with Reject) delivers no body
+   byte over net/http's writer, whatever the handler wrote or flushed before and after *)
+Theorem C18_response_block : forall cfg body ops,
+  let r := wrap_handler cfg true body ops in
+  r_invoked r = true -> r_intr r <> None -> cl_body (client_of true (r_ds r)) = [].
+Proof. exact response_block_wrap. Qed.
+Print Assumptions C18_response_block.
+
+(* nothing interrupts: the client receives what the bare handler's client receives (status,
+   headers, body, 1xx responses) and the handler reads what the bare handler reads - for handlers
+   that set no header after the first WriteHeader/Write/Flush, send no status after a 1xx, and
+   declare no Content-Length of their own *)
+Theorem C18_passthrough : forall cfg sk body ops,
+  no_late_headers ops = true -> no_status_after_info ops = true -> no_own_cl ops = true ->
+  let r := wrap_handler cfg sk body ops in
+  r_intr r = None ->
+  r_invoked r = true /\
+  r_read r = r_read (bare_handler sk body ops) /\
+  client_of sk (r_ds r) = client_of sk (r_ds (bare_handler sk body ops)).
+Proof. exact passthrough_holds. Qed.
+Print Assumptions C18_passthrough.
+
+(* the same, spelled out: the handler's status (implicit 200), its headers, the concatenation of
+   its writes (unless the status carries no body), for every chunking, flush pattern and limit *)
+Theorem C18_passthrough_spec : forall cfg sk body ops,
+  no_late_headers ops = true -> no_status_after_info ops = true -> no_own_cl ops = true ->
+  let r := wrap_handler cfg sk body ops in
+  r_intr r = None ->
+  let c := client_of sk (r_ds r) in
+  r_invoked r = true /\ r_read r = h_read (run_hst ops body) /\
+  cl_status c = handler_status sk ops /\ cl_headers c = handler_headers ops /\
+  cl_body c = (if okb sk (handler_status sk ops) then written ops else []).
+Proof. exact passthrough_spec. Qed.
+Print Assumptions C18_passthrough_spec.
+
+(* the handler's req.Body yields the client's body: what it reads is a prefix, ReadAll gets all of
+   it - for every body size relative to the limit, both limit actions, access on or off *)
+Theorem C18_handler_reads_body : forall cfg sk body ops,
+  let r := wrap_handler cfg sk body ops in
+  r_invoked r = true ->
+  r_read r = h_read (run_hst ops body) /\
+  (exists rest, r_read r ++ rest = body) /\
+  (In HReadAll ops -> r_read r = body).
+Proof. exact handler_reads_body_holds. Qed.
+Print Assumptions C18_handler_reads_body.
+
+(* ---- expectations of the property's text the code does not meet (witnesses) ---- *)
+
+(* F28a c18-request-redirect-drop-status *)
+Theorem C18_request_redirect_refuted : exists cfg body ops it,
+  mw_request cfg body = RBlocked it /\ in_act it = ARedirect /\ in_status it = 302 /\
+  cl_status (client_of true (r_ds (wrap_handler cfg true body ops))) = 200.
+Proof. exact request_redirect_refuted. Qed.
+Print Assumptions C18_request_redirect_refuted.
+
+(* F28b c18-informational-status *)
+Theorem C18_informational_status_refuted : exists cfg body ops,
+  r_intr (wrap_handler cfg true body ops) = None /\
+  cl_status (client_of true (r_ds (bare_handler true body ops))) = 404 /\
+  cl_status (client_of true (r_ds (wrap_handler cfg true body ops))) = 200.
+Proof. exact informational_status_refuted. Qed.
+Print Assumptions C18_informational_status_refuted.
+
+(* pass-through without the no_late_headers guard fails: a header set after WriteHeader is sent *)
+Theorem C18_late_header_refuted : exists cfg body ops k,
+  r_intr (wrap_handler cfg true body ops) = None /\
+  h_get k (cl_headers (client_of true (r_ds (bare_handler true body ops)))) = [] /\
+  h_get k (cl_headers (client_of true (r_ds (wrap_handler cfg true body ops)))) <> [].
+Proof. exact late_header_refuted. Qed.
+Print Assumptions C18_late_header_refuted.
+
+(* C18_response_block fails for a writer that does not enforce Content-Length *)
+Theorem C18_response_block_lenient_refuted : exists cfg body ops,
+  let r := wrap_handler cfg false body ops in
+  r_invoked r = true /\ r_intr r = Some (mkintr ADeny 403) /\
+  cl_status (client_of false (r_ds r)) = 403 /\ cl_body (client_of false (r_ds r)) = [83; 69; 67].
+Proof. exact response_block_lenient_refuted. Qed.
+Print Assumptions C18_response_block_lenient_refuted.
